@@ -25,6 +25,10 @@ DEFINERS = [
     ("arith", "{ p(G,V+1) } :- dp(G,V).", [["dp", 2]]),
     ("recursion", "{ p(G,V) } :- dp(G,V). p(G,W) :- p(G,V), nxt(V,W).", [["dp", 2], ["nxt", 2]]),
     ("cond_lit", "{ p(G,V) } :- dp(G,V), g(H) : dp(H,V).", [["dp", 2], ["g", 1]]),
+    ("cond_lit_choice", "{ c(G,Y) : dp(G,Y) }. p(G,V) :- dp(G,V), c(G,Y) : blk(Y).", [["dp", 2], ["blk", 1]]),
+    ("cond_lit_choice2", "{ c(G) } :- g(G). { p(G,V) } :- dp(G,V), c(H) : g(H), H < G.", [["dp", 2], ["g", 1]]),
+    ("chain_of_domains", "{ c(G,V) } :- dp(G,V). d2(G,V) :- c(G,V), g(G). { p(G,V) } :- d2(G,V).", [["dp", 2], ["g", 1]]),
+    ("agg_choice", "{ c(G) } :- g(G). { p(G,V) } :- dp(G,V), 1 <= #sum { 1,H : c(H) }.", [["dp", 2], ["g", 1]]),
     ("dneg", "{ on(G) } :- g(G). { p(G,V) } :- dp(G,V), not not on(G).", [["dp", 2], ["g", 1]]),
 ]
 
